@@ -211,7 +211,7 @@ theorem pmod_last (k L : Nat) (hk : 0 < k) (hL : 0 < L) : pmod ((k * L - 1 : Nat
   rw [this, Nat.add_mul_mod_self_right, Nat.mod_eq_of_lt (by omega)]
 
 /-- **`extract_segment` of `k` whole unit cells** is the window of `k` unit cells -/
-theorem extractSegment_window [Mul α] [One α] (m m' : GMPO α Q) (hm : m.WF) (k : Nat) (hk : 0 < k) (hL : 0 < m.L)
+theorem extractSegment_window [Mul α] [One α] [DecidableEq Q] (m m' : GMPO α Q) (hm : m.WF) (k : Nat) (hk : 0 < k) (hL : 0 < m.L)
     (h : extractSegment m 0 ((k * m.L - 1 : Nat) : Int) = .ok m') : m'.denote = m.denoteWindow k := by
   have hpos : 1 ≤ k * m.L := Nat.mul_pos hk hL
   have hlen : ((k * m.L - 1 : Nat) : Int) + 1 - 0 = ((k * m.L : Nat) : Int) := by omega
